@@ -26,7 +26,7 @@ ASSUMPTIONS = ["float64 CPU", "expected exception family: any Exception raised b
                "electron counts outside [2, 2*n_orbitals - 2] are not generated"]
 REQUIRED_MONITORS = ["negative_raised", "negative_fresh_checked", "negative_precomputed_checked", "positive_rows_finite",
                      "guard_sites_seen", "negative_raised_dict_reused", "negative_raised_dict_user_elements",
-                     "positive_dispersion_cases"]
+                     "positive_dispersion_cases", "positive_axis_aligned_runs"]
 # thorough tier: cases not started after this many seconds are skipped and reported (env override for smoke tests)
 BUDGET_S = {"thorough": float(__import__("os").environ.get("VERIF_C18_BUDGET", "1500"))}
 CASE_TIMEOUT = 600.0
@@ -53,6 +53,9 @@ OPERATORS = {
     "hetero-batch-rpa": ("forward", ("NotImplementedError",)),
     "hetero-batch-excited-gradient": ("forward", ("NotImplementedError",)),
     "active-state-without-excited-settings": ("forward", ("Exception",)),
+    # per-molecule active_state TENSORS (set on the molecule) without an excited_states block
+    "active-state-tensor-all-excited": ("forward", ("Exception",)),
+    "active-state-tensor-mixed": ("forward", ("Exception",)),
     "unknown-com-mode": ("md", ("ValueError",)),
     "unsupported-principal-quantum-number": ("forward", ("ValueError",)),
     # preconditions documented by the code's own messages
@@ -67,6 +70,10 @@ LISTED = [k for k in OPERATORS if k not in ("excited-states-not-a-dict", "excite
                                             "too-many-roots", "driver-before-molecule", "driver-built-for-other-elements")]
 
 
+TENSOR_OPS = ("active-state-tensor-all-excited", "active-state-tensor-mixed")
+AXIS_NAMES = ["+x", "-x", "+y", "-y", "+z", "-z"]
+
+
 def gen_cases(tier, seed):
     g = gen.rng("C18", tier)
     cases = []
@@ -75,6 +82,8 @@ def gen_cases(tier, seed):
     hetero = ["H2O", "NH3", "CH4", "HCN", "CH2O", "CO", "HF", "CH3OH", "C2H4", "N2", "CH3F", "HOOH"]
     for r in range(nrep):                 # round-robin over the operators, so that a truncated run still sees all of them
         for op in OPERATORS:
+            if op in TENSOR_OPS:
+                continue                      # generated below from a generator of their own (earlier cases stay unchanged)
             method = methods[int(g.integers(0, 4))]
             names = [n for n in hetero if gen.available(n, method)]
             multi = [n for n in names if len(set(gen.molecule(n)[0])) > 1]
@@ -93,6 +102,23 @@ def gen_cases(tier, seed):
             if op == "unknown-com-mode":
                 c["variant"] = [["rotational", 1], ["none", 1], ["", 2], ["ANGULAR_", 1], ["lin", 3]][r % 5]
             cases.append(c)
+    g2 = gen.rng("C18", tier, "active-state-tensors")
+    for r in range(nrep):
+        for op in TENSOR_OPS:
+            # sharp only where no other guard can fire first: analytical gradients exist for MNDO / AM1 / PM3
+            method = ["AM1", "PM3", "MNDO"][int(g2.integers(0, 3))]
+            names = [n for n in ("H2O", "NH3", "CH4", "HCN", "CH2O", "C2H4") if gen.available(n, method)]
+            nrow = 2 + r % 2
+            if op == "active-state-tensor-all-excited":
+                t = [int(g2.integers(1, 3)) for _ in range(nrow)]
+            else:
+                t = [0] * nrow
+                t[r % nrow] = int(g2.integers(1, 3))          # the excited entry visits every position
+                if nrow == 3 and r % 4 == 3:
+                    t[(r + 1) % nrow] = 1
+            cases.append({"kind": "neg", "op": op, "method": method, "seed": int(g2.integers(0, 2**31)),
+                          "mol": names[int(g2.integers(0, len(names)))], "mol2": "H2O", "precomputed": bool((r // 2) % 2),
+                          "dict_mode": ["fresh", "reused", "user-elements"][r % 3], "active_tensor": t})
     # ---------------- positive space -----------------------------------------------------------------------
     npos = 200 if tier == "quick" else 4000
     solvers = [([2], False), ([1], False), ([0, 0.3], False), ([2], False), ([1], True), ([0, 0.5], True)]
@@ -145,6 +171,21 @@ def gen_cases(tier, seed):
             c.update({"sub": "batch", "mols": [dmols[int(j)] for j in g.integers(0, len(dmols), k)],
                       "scales": [float(g.choice([0.5, 0.6, 0.7, 1.0, 3.0])) for _ in range(k)]})
         pos.append(c)
+    # exact axis-aligned orientations: every bonded pair (i < j in the sorted order) put EXACTLY on each of +-x, +-y, +-z
+    # (both directions = both pair orders), all methods, back-propagated and analytical forces
+    g3 = gen.rng("C18", tier, "axis")
+    amols = ["CO2", "H2O", "HCN", "CH2O", "N2", "CO", "HF", "NH3", "CH4", "C2H2", "C2H4", "HOOH", "H2S", "HCl", "LiH", "SO2", "CH3F", "N2O"]
+    combos = [(m, gr) for m in methods for gr in ("autodiff", "analytical") if not (m == "PM6_SP" and gr == "analytical")]
+    naxis = 28 if tier == "quick" else 400
+    for i in range(naxis):
+        method, grad = combos[i % len(combos)]
+        names = [n for n in amols if gen.available(n, method)]
+        name = names[i % len(names)] if i < len(names) else names[int(g3.integers(0, len(names)))]
+        Z, X, _, _ = gen.molecule(name)
+        bonds = gen.bonded_pairs(Z, X) or [(0, 1)]
+        pos.append({"kind": "pos", "family": "axis", "method": method, "grad": grad, "mol": name,
+                    "pair": list(bonds[int(g3.integers(0, len(bonds)))]) if tier == "quick" else None,
+                    "conv": [[2], [1]][i % 2], "uhf": False, "eps": 1e-7, "seed": int(g3.integers(0, 2**31))})
     # interleave the two spaces so that a truncated (budgeted) run still exercises both
     out = []
     step = max(1, len(pos) // max(1, len(cases)))
@@ -289,6 +330,14 @@ def _neg_request(case):
                                        excited={"n_states": 2, "method": "cis", "tolerance": 1e-6})
     elif op == "active-state-without-excited-settings":
         req["sett"] = run.settings(method, eps=1e-7, converger=(1,), active_state=int(g.integers(1, 3)))
+    elif op in TENSOR_OPS:
+        t = case["active_tensor"]
+        mols = []
+        for _ in t:
+            Xk = gen.distort(gen.molecule(case["mol"])[1], g, sigma=0.03)
+            mols.append((Z, Xk @ gen.generic_rotation(Xk, g).T))
+        S, C = gen.pad_batch(mols)
+        req.update(species=S, coords=C, charges=[0.0] * len(t), mult=[1.0] * len(t), active_tensor=t)
     elif op == "unknown-com-mode":
         req["md"] = {"remove_com": case["variant"]}
     elif op == "unsupported-principal-quantum-number":
@@ -388,6 +437,8 @@ def _run_neg(case):
                 Electronic_Structure(sett)
             if mol is None:
                 mol = Molecule(const, sett, xyz, sp, ch, mu)
+            if req.get("active_tensor") is not None:
+                mol.active_state = torch.tensor(req["active_tensor"], dtype=torch.int64)
             snap = _snapshot(mol)
             if req["md"] is not None:
                 from seqm.MolecularDynamics import Molecular_Dynamics_Basic
@@ -511,9 +562,82 @@ def _pos_request(case):
     return rows
 
 
+def _judge_rows(out, rows, S, method, case, mon, viol, extra=None):
+    """finite-or-flagged post-condition on every row of one returned call.  -> worst ratio (0 or 2)"""
+    nc = np.asarray(out["notconverged"]).reshape(-1)
+    worst = 0.0
+    for k, (Z, X, q, m) in enumerate(rows):
+        n = len(Z)
+        no = sum(1 if z == 1 else 4 for z in Z)
+        vals = {"Etot": out["Etot"][k], "Eelec": out["Eelec"][k], "Enuc": out["Enuc"][k], "Hf": out["Hf"][k],
+                "force": out["force"][k][:n], "q": out["q"][k][:n], "e_mo": out["e_mo"][k][..., :no]}
+        if out.get("dipole") is not None:
+            vals["dipole"] = out["dipole"][k]
+        if np.asarray(out["gap"]).size:
+            vals["gap"] = np.asarray(out["gap"])[k]
+        bad = [name for name, v in vals.items() if not np.all(np.isfinite(np.asarray(v, float)))]
+        padbad = bool(n < len(S[0]) and not np.all(np.isfinite(out["force"][k][n:])))
+        if bool(nc[k]):
+            mon["positive_rows_flagged_not_converged"] = mon.get("positive_rows_flagged_not_converged", 0) + 1
+            if bad:
+                mon["positive_rows_nonfinite_but_flagged"] = mon.get("positive_rows_nonfinite_but_flagged", 0) + 1
+            continue
+        if bad or padbad:
+            worst = 2.0
+            viol.append({"clause": "non-finite-result-with-clean-flag", "mech": None,
+                         "detail": dict({"row": k, "species": Z, "coords": np.asarray(X).tolist(), "charge": q, "mult": m,
+                                         "non_finite": bad, "padding_force_non_finite": padbad, "case": case}, **(extra or {}))})
+        else:
+            mon["positive_rows_finite"] = mon.get("positive_rows_finite", 0) + 1
+            big = max(abs(float(out["Etot"][k])), float(np.abs(out["force"][k][:n]).max()))
+            if big > 1e6:
+                mon["positive_rows_finite_but_huge"] = mon.get("positive_rows_finite_but_huge", 0) + 1
+    return worst
+
+
+def _run_axis(case):
+    """library molecule with a bonded pair put EXACTLY on each Cartesian axis direction (perpendicular components of the two
+    atoms made bitwise equal), 6 single points per pair."""
+    from vlib import run
+
+    method = case["method"]
+    Z, X0, q, m = gen.molecule(case["mol"])
+    g = np.random.default_rng(case["seed"])
+    X0 = gen.distort(X0, g, sigma=0.02)
+    bonds = [tuple(case["pair"])] if case.get("pair") else (gen.bonded_pairs(Z, X0) or [(0, 1)])
+    sett = run.settings(method, eps=case["eps"], converger=tuple(case["conv"]), grad=case["grad"])
+    mon, viol, cells = {}, [], ["pos/axis/%s/%s" % (method, case["grad"])]
+    worst = 0.0
+    for (i, j) in bonds:
+        for ax in AXIS_NAMES:
+            R = gen.align_pair(X0, i, j, ax, cone=0.0, g=g)
+            X = X0 @ R.T
+            X = X - X[i] + g.uniform(-1, 1, 3)
+            comp = "xyz".index(ax[1])
+            for c in range(3):
+                if c != comp:
+                    X[j, c] = X[i, c]                   # exact: R_j - R_i has no component off the axis
+            v = X[j] - X[i]
+            assert v[(comp + 1) % 3] == 0.0 and v[(comp + 2) % 3] == 0.0 and (v[comp] > 0) == (ax[0] == "+")
+            try:
+                out = run.single_point([Z], [X.tolist()], sett, charges=float(q), mult=float(m))
+            except Exception as exc:  # noqa: BLE001
+                deliberate, site = _guard_site(exc)
+                mon["positive_rejected_loudly"] = mon.get("positive_rejected_loudly", 0) + 1
+                cells.append("pos-raised/%s@%s" % (type(exc).__name__, site))
+                continue
+            mon["positive_axis_aligned_runs"] = mon.get("positive_axis_aligned_runs", 0) + 1
+            cells.append("axis/%s/%s" % (ax, "heavy-heavy" if Z[i] > 1 and Z[j] > 1 else ("X-H" if Z[i] > 1 else "H-H")))
+            worst = max(worst, _judge_rows(out, [(Z, X, q, m)], [Z], method, case, mon, viol, extra={"pair": [i, j], "axis": ax}))
+    return {"nontrivial": mon.get("positive_axis_aligned_runs", 0) > 0, "violations": viol, "monitors": mon, "cells": cells,
+            "margins": {"finite_or_flagged": worst}, "obs": {"family": "axis", "mol": case["mol"], "pairs": [list(b) for b in bonds]}}
+
+
 def _run_pos(case):
     from vlib import run
 
+    if case["family"] == "axis":
+        return _run_axis(case)
     rows = _pos_request(case)
     if rows is None:
         return {"ineligible": "electron count outside the generated domain for this solver"}
@@ -539,31 +663,7 @@ def _run_pos(case):
                 "obs": {"raised": type(exc).__name__, "message": str(exc)[:200], "site": site, "case_family": case["family"]}}
     viol = []
     nc = np.asarray(out["notconverged"]).reshape(-1)
-    worst = 0.0
-    for k, (Z, X, q, m) in enumerate(rows):
-        n = len(Z)
-        no = sum(1 if z == 1 else 4 for z in Z)
-        vals = {"Etot": out["Etot"][k], "Eelec": out["Eelec"][k], "Enuc": out["Enuc"][k], "Hf": out["Hf"][k],
-                "force": out["force"][k][:n], "q": out["q"][k][:n], "e_mo": out["e_mo"][k][..., :no]}
-        if np.asarray(out["gap"]).size:
-            vals["gap"] = np.asarray(out["gap"])[k]
-        bad = [name for name, v in vals.items() if not np.all(np.isfinite(np.asarray(v, float)))]
-        padbad = bool(n < len(S[0]) and not np.all(np.isfinite(out["force"][k][n:])))
-        if bool(nc[k]):
-            mon["positive_rows_flagged_not_converged"] = mon.get("positive_rows_flagged_not_converged", 0) + 1
-            if bad:
-                mon["positive_rows_nonfinite_but_flagged"] = mon.get("positive_rows_nonfinite_but_flagged", 0) + 1
-            continue
-        if bad or padbad:
-            worst = 2.0
-            viol.append({"clause": "non-finite-result-with-clean-flag", "mech": None,
-                         "detail": {"row": k, "species": Z, "coords": np.asarray(X).tolist(), "charge": q, "mult": m,
-                                    "non_finite": bad, "padding_force_non_finite": padbad, "case": case}})
-        else:
-            mon["positive_rows_finite"] = mon.get("positive_rows_finite", 0) + 1
-            big = max(abs(float(out["Etot"][k])), float(np.abs(out["force"][k][:n]).max()))
-            if big > 1e6:
-                mon["positive_rows_finite_but_huge"] = mon.get("positive_rows_finite_but_huge", 0) + 1
+    worst = _judge_rows(out, rows, S, method, case, mon, viol)
     for (Z, X, q, m) in rows:
         for z in set(Z):
             cells.append("element/%s/%d" % (method, z))
